@@ -33,7 +33,8 @@ def verdict_of(o):
 def describe(case):
     v = ",".join("%s@%s" % (x["c"], x["at"]) for x in case["viol"])
     bad = [p for p in case["pads"] if not pad_ok(p)]
-    return "%snch=%d cal=%s anchor=%s viol={%s} badpads=%d doc=%s level=%s" % ("legacy " if case.get("rfc") else "", case["nch"], case["cal"], case["anchor"], v, len(bad), case["doc"], case["level"])
+    return "%s%snch=%d cal=%s anchor=%s viol={%s} badpads=%d doc=%s level=%s" % ("legacy " if case.get("rfc") else "", "epoch=%s " % case["epoch"] if case.get("epoch", "after") != "after" else "",
+                                                                                  case["nch"], case["cal"], case["anchor"], v, len(bad), case["doc"], case["level"])
 
 
 def pad_ok(p):
